@@ -294,6 +294,7 @@ def run(repo: Repo, rep: Report, tier: str) -> None:
     # R6.10: ... and a forced regeneration of the client that hosts the core carries the registry over the removal of its package   [= R11.5]
     reuse(repo, rep, "c11", {"R11.5": "R6.10"})
     _guarded(rep, rule_no_redirect_following, repo, rep, "R6.11")
+    _guarded(rep, rule_error_path_has_a_read_body, repo, rep, "R6.16")
     from rules._memo import local_memo_rule
 
     local_memo_rule(repo, rep, "R6.7", ("core.loader",),
@@ -885,3 +886,63 @@ def rule_no_redirect_following(repo: Repo, rep, rule: str = "R6.11") -> None:
                       "then returns a value instead of raising HTTPError with that status", f"{ht.relpath}:{hz[0].lineno}")
     else:
         rep.ok(rule, sub, f"{n_calls} httpx call site(s): `follow_redirects` is never switched on (httpx default: off)", f"{ht.relpath}:1")
+
+
+_R616_EXAMPLE = '''
+class HttpxTransport:
+    async def request(self, method, url, **kwargs):
+        if kwargs.get("stream"):
+            response = await self._client.send(self._client.build_request(method, url), stream=True)
+        else:
+            response = await self._client.request(method, url)
+        if response.status_code >= 300:
+            raise HTTPError(status_code=response.status_code, message=response_text(response), response=response)
+        return response
+'''
+
+
+def _r616_unread_bodies(fn_node: ast.AST) -> tuple[int, list[ast.AST]]:
+    """(send sites, [send sites that hand back an unread body while the error path does not read it])."""
+    sends = [c for c in ast.walk(fn_node) if isinstance(c, ast.Call) and isinstance(c.func, ast.Attribute) and c.func.attr in ("request", "send", "stream", "get", "post")
+             and any(isinstance(x, ast.Attribute) and x.attr in ("_client", "client") for x in ast.walk(c.func.value))]
+    unread = []
+    for c in sends:
+        kw = next((k.value for k in c.keywords if k.arg == "stream"), None)
+        if c.func.attr == "stream" or (kw is not None and not (isinstance(kw, ast.Constant) and kw.value in (False, None))):
+            unread.append(c)
+    if not unread:
+        return len(sends), []
+    # the status guard's error branch reads the body first (`await response.aread()`)
+    for i in ast.walk(fn_node):
+        if isinstance(i, ast.If) and any(isinstance(a, ast.Attribute) and a.attr == "status_code" for a in ast.walk(i.test)) and any(isinstance(r, ast.Raise) for s in i.body for r in ast.walk(s)):
+            reads = [c for s in i.body for c in ast.walk(s) if isinstance(c, ast.Call) and isinstance(c.func, ast.Attribute) and c.func.attr in ("aread", "read")]
+            raises = [r for s in i.body for r in ast.walk(s) if isinstance(r, ast.Raise)]
+            if reads and raises and min(c.lineno for c in reads) < min(r.lineno for r in raises):
+                return len(sends), []
+    return len(sends), unread
+
+
+def rule_error_path_has_a_read_body(repo: Repo, rep, rule: str = "R6.16") -> None:
+    """The transport builds the error from the response (`response_text(response)`, the body of the message).  That is total only for a response
+    whose body has been read: `send(..., stream=True)` / `client.stream(...)` hand the response back after the headers, and every access to
+    `.content` / `.text` on it raises `httpx.ResponseNotRead` - the non-2xx answer of a streamed operation then surfaces as that, not as
+    HTTPError/ClientError/ServerError.  A send site that does not buffer the body needs `await response.aread()` in the status guard before the raise."""
+    ex = ast.parse(_R616_EXAMPLE).body[0].body[0]
+    n, bad = _r616_unread_bodies(ex)
+    rep.require(n >= 2 and len(bad) == 1, f"{rule}: the built-in positive example is no longer recognised - the rule is broken")
+    mod = repo.module("core.http_transport")
+    cls = mod.classes.get("HttpxTransport")
+    fn = cls.methods.get("request") if cls else None
+    if fn is None:
+        raise AnalysisError(f"{rule}: anchor vanished: HttpxTransport.request")
+    n, bad = _r616_unread_bodies(fn.node)
+    rep.count(f"{rule}:send_sites", n)
+    rep.require(n >= 1, f"{rule}: no send site found in HttpxTransport.request")
+    sub = f"{mod.relpath}:HttpxTransport.request responses that reach the status guard have their body"
+    if bad:
+        for c in bad:
+            rep.violation(rule, sub, f"{fn.fq}|unread-body-reaches-error-path|{c.func.attr}",
+                          f"`{norm(c)[:70]}` returns once the headers have arrived; the status guard then builds the error from the body of a response that was never read "
+                          "(`httpx.ResponseNotRead` instead of HTTPError / ClientError / ServerError for every non-2xx answer of a streamed operation)", fn.loc(c))
+    else:
+        rep.ok(rule, sub, f"{n} send site(s), none un-buffered without `aread()` before the raise", fn.loc(fn.node))
